@@ -105,13 +105,13 @@ def finish (p : List MFile) : Except Err (List MFile) :=
 /-- The body of `case len(migrations) > 0` (also reached by `fallthrough`). -/
 def normal (cfg : Cfg) (migrations : List MFile) (revs : List Revision) (r0 last : Revision) :
     Except Err (List MFile) :=
-  let partially := last.applied != last.total
+  let partially := last.partially
   let fn : MFile → Bool :=
     if partially then (fun f => f.version == last.version) else (fun f => f.version ≤ last.version)
   match lastIndex fn migrations with
   | none => if partially then .error (.missing last.version last.desc) else .ok migrations
   | some idx0 =>
-    let idx := if last.applied == last.total then idx0 + 1 else idx0
+    let idx := if partially then idx0 else idx0 + 1
     let pend := migrations.drop idx
     match outOfOrder cfg migrations revs r0 idx with
     | none => finish pend
@@ -130,7 +130,7 @@ def pending (cfg : Cfg) (all : List MFile) (revs : List Revision) : Result :=
   | none, _ => firstRun cfg all migrations
   | _, none => firstRun cfg all migrations
   | some last, some r0 =>
-    if last.applied != last.total && !all.isEmpty then
+    if last.partially && !all.isEmpty then
       let (idx, found) := bsearch (fun (f : MFile) => f.version < last.version)
                                   (fun (f : MFile) => f.version == last.version) all
       if found && (all[idx]!).checkpoint then
